@@ -93,6 +93,9 @@ def contiguous_selector_lengths(sel):
 
 def kernel_basis(mat, tol=1e-6):
     u, s, vh = np.linalg.svd(mat)
+    if s.size > 0:
+        # a matrix of small scale is not a matrix of small rank
+        tol = tol * min(1.0, s[0])
     rank = np.count_nonzero(s > tol)
     basis = vh[rank:, :].T
     return basis
